@@ -260,6 +260,34 @@ func (p *pkgInfo) intLiteralsComparedWith(fn, needle string, env map[string]cons
 	return res
 }
 
+// comparisonsWith gives the source text "op other-side" of every comparison in fn one side of which contains needle
+func (p *pkgInfo) comparisonsWith(fn, needle string) []string {
+	fd := p.funcDecl(fn)
+	if fd == nil {
+		return nil
+	}
+	var res []string
+	ast.Inspect(fd, func(n ast.Node) bool {
+		be, ok := n.(*ast.BinaryExpr)
+		if !ok {
+			return true
+		}
+		switch be.Op {
+		case token.LSS, token.LEQ, token.GTR, token.GEQ, token.EQL, token.NEQ:
+		default:
+			return true
+		}
+		xs, ys := exprString(be.X), exprString(be.Y)
+		if strings.Contains(xs, needle) {
+			res = append(res, be.Op.String()+" "+ys)
+		} else if strings.Contains(ys, needle) {
+			res = append(res, xs+" "+be.Op.String())
+		}
+		return true
+	})
+	return res
+}
+
 func exprString(e ast.Expr) string {
 	var sb strings.Builder
 	writeExpr(&sb, e)
@@ -435,7 +463,8 @@ func genConsts(out string, root, t1, pfbp, names *pkgInfo) {
 	lf.printf("def t1_maxStack : Option Int := %s\n", optInt(v, ok))
 	lf.printf("def t1_callDepthTests : List String := %s\n", leanStrList(t1.intLiteralsComparedWith("decodeInfo.decodeCharString", "len(cmdStack)", tc)))
 	lf.printf("def t1_appendNumberQTests : List String := %s\n", leanStrList(t1.intLiteralsComparedWith("appendNumber", "q", tc)))
-	lf.printf("def t1_readShortCipherTests : List String := %s\n", leanStrList(t1.intLiteralsComparedWith("Read", "len(obfuscated)", tc)))
+	// the test that decides whether a CharStrings entry is too short to hold the lead bytes: source text of both sides
+	lf.printf("def t1_readShortCipherTests : List String := %s\n", leanStrList(t1.comparisonsWith("Read", "len(obfuscated)")))
 	lf.printf("\n/-! literal limits inside the interpreter -/\n")
 	lf.printf("def root_execDepthTests : List String := %s\n", leanStrList(dedup(root.intLiteralsComparedWith("Interpreter.executeOne", "execStackDepth", rc))))
 	lf.printf("def root_errorLevelTests : List String := %s\n", leanStrList(root.intLiteralsComparedWith("Interpreter.executeOne", "level", rc)))
@@ -648,6 +677,7 @@ func genT1Ops(out string, t1 *pkgInfo) {
 	lf.printf("]\n\n")
 	lf.printf("/-- literal bounds tested against `x` in appendInt, in source order -/\ndef appendIntTests : List String := %s\n", leanStrList(t1.intLiteralsComparedWith("appendInt", "x", tc)))
 	lf.printf("/-- literal bounds tested against `op` in decodeCharString, in source order -/\ndef decodeOpTests : List String := %s\n", leanStrList(t1.intLiteralsComparedWith("decodeInfo.decodeCharString", "op", tc)))
+	lf.printf("/-- tests of the number of bytes left before a multi-byte operand or operator is read, in source order -/\ndef decodeLenTests : List String := %s\n", leanStrList(t1.intLiteralsComparedWith("decodeInfo.decodeCharString", "len(code)", tc)))
 	lf.write(out)
 }
 
